@@ -268,8 +268,10 @@ class DirectedMultigraph : private LabeledDirectedGraph<EdgeMultiplicity> {
             successors.erase(j++);
             edgeNumber--;
         }
-        for (VertexIndex i = 0; i < size; ++i)
+        for (VertexIndex i = 0; i < size; ++i) {
             removeAllEdges(i, vertex);
+            edgeLabels.erase({vertex, i});
+        }
     }
 
     /// @copydoc LabeledDirectedGraph::clearEdges
